@@ -57,6 +57,7 @@ type caseJ struct {
 	Seq     seqJ      `json:"seq"`
 	ParRows []mrow    `json:"parrows"`
 	Taint   []string  `json:"taint"`
+	Sens    bool      `json:"sens"`
 }
 
 func (v val) int() int {
@@ -86,6 +87,10 @@ func (v val) text() string {
 		return "null"
 	case "emiss":
 		return `error("missing")`
+	case "t0":
+		return "1970-01-01T00:00:00Z"
+	case "nt":
+		return "null(time)"
 	case "avg":
 		var p []int
 		json.Unmarshal(v.N, &p)
@@ -282,7 +287,7 @@ var opText = map[string]string{
 	"PY": `put y:=u+10`, "PK": `put k:=u`, "RZ": `rename z:=k`, "DK": `drop k`, "DX": `drop x`,
 	"SU": `sort u`, "SR": `sort -r u`, "SG": `sort g`, "SX": `sort x`, "SXR": `sort -r x`,
 	"H1": `head 1`, "H2": `head 2`, "T1": `tail 1`, "T2": `tail 2`, "UQ": `uniq`, "YU": `yield u`,
-	"AG": `a:=count() by g`, "AK": `a:=count() by k`, "XG": `a:=sum(x) by g`, "XK": `a:=sum(x) by k`,
+	"AG": `a:=count() by g`, "AK": `a:=count() by k`, "AB": `a:=count() by k:=bucket(k,2)`, "XG": `a:=sum(x) by g`, "XK": `a:=sum(x) by k`,
 	"VG": `a:=avg(x) by g`, "LG": `a:=collect(u) by g`, "UK": `a:=union(g) by k`,
 	"A0": `count()`, "X0": `sum(x)`,
 }
